@@ -171,6 +171,33 @@ theorem groupPass_spec (c : Cmd) (u : UInfo) (skip : List Id → Bool) (all : Li
       · exact ih gs ms gs' ms' hrest h hg
       · cases h
 
+/-- every group string `groupPass` collects is the display of a group of the level -/
+theorem groupPass_groups (c : Cmd) (u : UInfo) (skip : List Id → Bool) :
+    ∀ (reqs : List Id) (gs : List Bytes) (ms : List Id) (gs' : List Bytes) (ms' : List Id),
+    groupPass c u skip reqs gs ms = some (gs', ms') →
+    ∀ x ∈ gs', x ∈ gs ∨ ∃ g, (c.findGroup g).isSome = true ∧ formatGroup c u g = some x := by
+  intro reqs
+  induction reqs with
+  | nil => intro gs ms gs' ms' h x hx; simp only [groupPass, Option.some.injEq, Prod.mk.injEq] at h; rw [← h.1] at hx; exact Or.inl hx
+  | cons r rest ih =>
+    intro gs ms gs' ms' h x hx
+    unfold groupPass at h
+    split at h
+    · next hgr =>
+      split at h
+      · next members elem hm he =>
+        split at h
+        · exact ih gs ms gs' ms' h x hx
+        · rcases ih _ _ gs' ms' h x hx with hx' | hx'
+          · rcases mem_setInsert.mp hx' with hx'' | hx''
+            · exact Or.inl hx''
+            · subst hx''; exact Or.inr ⟨r, hgr, he⟩
+          · exact Or.inr hx'
+      · cases h
+    · split at h
+      · exact ih gs ms gs' ms' h x hx
+      · cases h
+
 theorem argPass_spec (c : Cmd) (u : UInfo) (members : List Id) (r : Bool) (skip : Arg → Bool) (all : List Id) :
     ∀ (reqs : List Id) (opts : List Bytes) (pos : List (Option Bytes)) (opts' : List Bytes) (pos' : List (Option Bytes)),
     (∀ x ∈ reqs, x ∈ all) →
